@@ -587,7 +587,9 @@ pub fn run_scenario(sc: &Value) -> Vec<Value> {
                         let via_raw = op.get("via").and_then(|x| x.as_str()) == Some("raw");
                         let rn = rename.clone();
                         let r = catch_unwind(AssertUnwindSafe(|| -> Result<(), String> {
-                            let mut ar = ZipArchive::new(Cursor::new(&src_bytes[..])).map_err(|e| format!("src: {}", e))?;
+                            // the source archive may sit on a reader that returns short reads (op.src_under = a Chunked plan)
+                            let plan = op.get("src_under").cloned().unwrap_or(json!({}));
+                            let mut ar = ZipArchive::new(crate::eexec::Chunked::new(&src_bytes[..], &plan)).map_err(|e| format!("src: {}", e))?;
                             let use_raw = via_raw || ar.by_index(idx).is_err();
                             let f = if use_raw { ar.by_index_raw(idx) } else { ar.by_index(idx) }
                                 .map_err(|e| format!("src: {}", e))?;
